@@ -161,6 +161,32 @@ macro_rules! core_obj {
     }};
 }
 
+/// CTR cores at a far block position: the in-memory block counter (64/128-bit flavours: 8 or 16 bytes, all non-zero)
+/// is chaining state of its own — "IV, nonce, counter and feedback state" (C17) — whatever the IV's counter field is.
+macro_rules! ctr_pos_obj {
+    ($rng:expr, $name:expr, $core:ty, $bs:expr, $ctr:ty) => {{
+        use cipher::StreamCipherSeekCore;
+        let key = $rng.bytes(16);
+        let mut iv = $rng.bytes($bs);
+        if $rng.below(2) == 0 {
+            // the usual layout: counter field zero (both ends, whichever the flavour uses)
+            let cs = core::mem::size_of::<$ctr>();
+            for b in iv[..cs].iter_mut() { *b = 0; }
+            for b in iv[$bs - cs..].iter_mut() { *b = 0; }
+        }
+        let pb: Vec<u8> = $rng.bytes(core::mem::size_of::<$ctr>()).iter().map(|b| 1 + b % 254).collect();
+        let p = <$ctr>::from_le_bytes(pb.as_slice().try_into().unwrap());
+        let obj = <$core as KeyIvInit>::new(key.as_slice().try_into().unwrap(), iv.as_slice().try_into().unwrap());
+        scan($name, obj, |o| {
+            o.set_block_pos(p);
+            let mut b = cipher::Block::<$core>::default();
+            o.write_keystream_block(&mut b);
+            let now: $ctr = o.get_block_pos();
+            vec![("exported-state", o.iv_state().to_vec()), ("block-counter", now.to_ne_bytes().to_vec())]
+        });
+    }};
+}
+
 macro_rules! buf_obj {
     ($rng:expr, $name:expr, $ty:ty, $bs:expr, $call:ident) => {{
         let key = $rng.bytes(16);
@@ -205,6 +231,10 @@ pub fn run(args: &[String]) {
         stream_obj!(rng, "ctr::Ctr32LE", ctr::CtrCore<C16, ctr::flavors::Ctr32LE>, 16, false);
         stream_obj!(rng, "ctr::Ctr64BE", ctr::CtrCore<C16, ctr::flavors::Ctr64BE>, 16, false);
         stream_obj!(rng, "ctr::Ctr128LE", ctr::CtrCore<C32, ctr::flavors::Ctr128LE>, 32, false);
+        ctr_pos_obj!(rng, "ctr::CtrCore<Ctr64LE>@far", ctr::CtrCore<C16, ctr::flavors::Ctr64LE>, 16, u64);
+        ctr_pos_obj!(rng, "ctr::CtrCore<Ctr64BE>@far", ctr::CtrCore<C32, ctr::flavors::Ctr64BE>, 32, u64);
+        ctr_pos_obj!(rng, "ctr::CtrCore<Ctr128LE>@far", ctr::CtrCore<C16, ctr::flavors::Ctr128LE>, 16, u128);
+        ctr_pos_obj!(rng, "ctr::CtrCore<Ctr128BE>@far", ctr::CtrCore<C32, ctr::flavors::Ctr128BE>, 32, u128);
         core_obj!(rng, "belt_ctr::BeltCtrCore", belt_ctr::BeltCtrCore<C16>, 16, true);
         stream_obj!(rng, "belt_ctr::BeltCtr", belt_ctr::BeltCtrCore<C16>, 16, true);
     }
